@@ -56,6 +56,12 @@ def step (line : String) : String :=
         if c2.runtime = c.runtime && c2.config = c.config && c2.fallback = c.fallback then pairOut c c2 a b else "bad-op"
       | _, _, _, _ => "bad-op"
     | _ => "bad-op"
+  | ["e2e08", seed] =>
+    -- pre-build functions end to end: decided on the real binary alone (harness/rulehash/c08e2e.go); the order of
+    -- memoisation it exercises is the regenerated fact `earlyRuleHashCalls` of Props/C08
+    match seed.toNat? with
+    | some n => if toString n = seed then "ok" else "bad-op"
+    | none => "bad-op"
   | op :: toks =>
     if op = "rule" || op = "pre" then
       match parseToks true true {} toks with
